@@ -76,7 +76,11 @@ pub fn para(rng: &mut Rng, fl: Flavor, max_tokens: usize) -> String {
 
 /// a text of 1..=max_paras paragraphs joined by LF / CRLF / stray CR mixtures
 pub fn text(rng: &mut Rng, fl: Flavor, max_paras: usize, max_tokens: usize) -> String {
-    let n = 1 + rng.below(max_paras);
+    // now and then many short paragraphs: state carried from paragraph to paragraph (line
+    // counts, offsets) only shows after a number of them
+    let many = max_paras >= 2 && rng.chance(1, 40);
+    let (max_paras, max_tokens) = if many { (10 + rng.below(30), 3) } else { (max_paras, max_tokens) };
+    let n = if many { max_paras } else { 1 + rng.below(max_paras) };
     let mut s = String::new();
     for i in 0..n {
         if i > 0 {
